@@ -6,8 +6,65 @@ from .base import Result, RuleError
 from .facts import callee
 from .flow import ExprBuilder, cfg_of, relations_at, canon, walk, fmt_expr
 from . import roles
+from .inline import views
 from .r_a2 import A2, get
 from .r_b1 import trailing_field
+
+
+def slot_probs(facts, b, takeover, rc_fields):
+    eb = ExprBuilder(b, facts, inline=False)
+    rets = []
+    for bi, blk in enumerate(b.blocks):
+        if blk["term"]["k"] == "return" and not blk["cleanup"]:
+            pass
+    # collect every definition of _0 with the block it is in
+    for bi, blk in enumerate(b.blocks):
+        for si, s in enumerate(blk["stmts"]):
+            if s["k"] == "assign" and s["pl"]["l"] == 0 and not s["pl"]["p"]:
+                rets.append((bi, si, canon(eb.rvalue(s["rv"], (bi, si), 0))))
+        t = blk["term"]
+        if t["k"] == "call" and t["dest"]["l"] == 0 and not t["dest"]["p"]:
+            rets.append((bi, len(blk["stmts"]), canon(eb.call_expr(t, (bi, len(blk["stmts"])), 0))))
+    probs = []
+    hows = []
+    for (bi, si, e) in rets:
+        if e == ("const", 0):
+            if takeover:
+                probs.append("returns constant false although into_mut can take the buffer over: try_into_mut would fail for a sole owner")
+            else:
+                hows.append("false")
+        elif e == ("const", 1):
+            if not takeover:
+                probs.append("returns true for a family whose into_mut always copies (static / owner-backed data must report false)")
+            else:
+                # only under an unshared-kind guard
+                rels = relations_at(b, bi, facts, inline=False)
+                ok = False
+                for r in rels:
+                    if r[0] in ("eq", "ne"):
+                        x, c = canon(r[1]), canon(r[2])
+                        if isinstance(x, tuple) and x[0] == "bin" and x[1] == "BitAnd" and isinstance(c, tuple) and c[0] == "const":
+                            if (r[0] == "eq" and c[1] == 1) or (r[0] == "ne" and c[1] == 0):
+                                ok = True
+                if ok:
+                    hows.append("true under the unshared-kind guard")
+                else:
+                    probs.append("returns constant true without an unshared-kind guard")
+        elif isinstance(e, tuple) and e[0] == "bin" and e[1] == "Eq":
+            x, c = e[2], e[3]
+            if c != ("const", 1):
+                x, c = c, x
+            if c == ("const", 1) and isinstance(x, tuple) and x[0] == "call" and x[1].endswith("::load") and trailing_field(x[2][0]) in rc_fields:
+                if not takeover:
+                    probs.append("family never hands its memory over but is_unique depends on the count")
+                hows.append("refcount.load() == 1")
+            else:
+                probs.append("returns %s, not `refcount == 1`" % fmt_expr(e))
+        else:
+            probs.append("returns %s" % fmt_expr(e))
+    if not rets:
+        probs.append("no return value found")
+    return probs, hows
 
 
 def run(facts):
@@ -29,58 +86,14 @@ def run(facts):
         # can into_mut ever return the same memory?  (a path that takes the block/buffer over or moves the reference)
         takeover = any(get(v, "teardown") or get(v, "hout") or (get(v, "buf_own") and not get(v, "rel")) for v in a2.summary(mb))
         key = "%s.is_unique" % vt
-        eb = ExprBuilder(b, facts, inline=False)
-        rets = []
-        for bi, blk in enumerate(b.blocks):
-            if blk["term"]["k"] == "return" and not blk["cleanup"]:
-                pass
-        # collect every definition of _0 with the block it is in
-        for bi, blk in enumerate(b.blocks):
-            for si, s in enumerate(blk["stmts"]):
-                if s["k"] == "assign" and s["pl"]["l"] == 0 and not s["pl"]["p"]:
-                    rets.append((bi, si, canon(eb.rvalue(s["rv"], (bi, si), 0))))
-            t = blk["term"]
-            if t["k"] == "call" and t["dest"]["l"] == 0 and not t["dest"]["p"]:
-                rets.append((bi, len(blk["stmts"]), canon(eb.call_expr(t, (bi, len(blk["stmts"])), 0))))
-        probs = []
-        hows = []
-        for (bi, si, e) in rets:
-            if e == ("const", 0):
-                if takeover:
-                    probs.append("returns constant false although into_mut can take the buffer over: try_into_mut would fail for a sole owner")
-                else:
-                    hows.append("false")
-            elif e == ("const", 1):
-                if not takeover:
-                    probs.append("returns true for a family whose into_mut always copies (static / owner-backed data must report false)")
-                else:
-                    # only under an unshared-kind guard
-                    rels = relations_at(b, bi, facts, inline=False)
-                    ok = False
-                    for r in rels:
-                        if r[0] in ("eq", "ne"):
-                            x, c = canon(r[1]), canon(r[2])
-                            if isinstance(x, tuple) and x[0] == "bin" and x[1] == "BitAnd" and isinstance(c, tuple) and c[0] == "const":
-                                if (r[0] == "eq" and c[1] == 1) or (r[0] == "ne" and c[1] == 0):
-                                    ok = True
-                    if ok:
-                        hows.append("true under the unshared-kind guard")
-                    else:
-                        probs.append("returns constant true without an unshared-kind guard")
-            elif isinstance(e, tuple) and e[0] == "bin" and e[1] == "Eq":
-                x, c = e[2], e[3]
-                if c != ("const", 1):
-                    x, c = c, x
-                if c == ("const", 1) and isinstance(x, tuple) and x[0] == "call" and x[1].endswith("::load") and trailing_field(x[2][0]) in rc_fields:
-                    if not takeover:
-                        probs.append("family never hands its memory over but is_unique depends on the count")
-                    hows.append("refcount.load() == 1")
-                else:
-                    probs.append("returns %s, not `refcount == 1`" % fmt_expr(e))
-            else:
-                probs.append("returns %s" % fmt_expr(e))
-        if not rets:
-            probs.append("no return value found")
+        probs, hows = slot_probs(facts, b, takeover, rc_fields)
+        if probs:
+            # the count test may live in a private helper (`Shared::is_unique(&self)`): judge the inlined views
+            for ib in views(facts, b):
+                p2, h2 = slot_probs(facts, ib, takeover, rc_fields)
+                if not p2:
+                    probs, hows = [], h2 + ["with helpers inlined"]
+                    break
         if probs:
             res.bad(key, b.loc(), "; ".join(probs))
         else:
